@@ -83,7 +83,30 @@ impl BrokenDocLink {
             })
     }
 
+    #[cfg(feature = "verif-hooks")]
     fn linecol_to_index(doc: &[DocString], line_col: LineColumn, end: bool) -> Option<usize> {
+        let result = Self::linecol_to_index_impl(doc, line_col, end);
+
+        crate::verif_hooks::record_linecol(crate::verif_hooks::LineColRecord {
+            docs: doc
+                .iter()
+                .map(|doc| (doc.span_inner().start, doc.value_inner().to_owned()))
+                .collect(),
+            line: line_col.line,
+            column: line_col.column,
+            end,
+            result,
+        });
+
+        result
+    }
+
+    #[cfg(not(feature = "verif-hooks"))]
+    fn linecol_to_index(doc: &[DocString], line_col: LineColumn, end: bool) -> Option<usize> {
+        Self::linecol_to_index_impl(doc, line_col, end)
+    }
+
+    fn linecol_to_index_impl(doc: &[DocString], line_col: LineColumn, end: bool) -> Option<usize> {
         let mut line = 0;
 
         for doc in doc {
